@@ -21,7 +21,9 @@ returned by pycel must be a member of the allowed set exported by TLC.
 import json
 import os
 import random
+import re
 import time
+from collections import Counter
 from concurrent.futures import ProcessPoolExecutor, ThreadPoolExecutor
 from fractions import Fraction
 
@@ -402,6 +404,10 @@ def run(tier, seed):
                                   average=show(vec['average']), count=show(vec['count']),
                                   sumproduct_rot=show(vec['sprot'])))
     v.traces = nfull
+    # discrepancies grouped by (check, outcome) with the numbers blanked out
+    classes = Counter(re.sub(r'-?\d+(\.\d+)?', '#', re.sub(r'\|\d+x\d+', '', x['desc']))[:110]
+                      for x in v.violations)
+    v.extra['violation_classes'] = [f'{n} x {k}' for k, n in classes.most_common(25)]
     v.extra['phase_s'] = dict(tlc=round(t_drive - v.t0, 1), drive=round(time.time() - t_drive, 1))
     v.extra.update(
         exhaustive=True, exhaustive_vectors=exhaustive_n,
